@@ -129,6 +129,8 @@ PROPS["C17"] = dict(
                  "Go channels, sync.Pool and sync.WaitGroup behave as documented (they are the step rules of the transition system)"],
 )
 
+import e2e
+
 PROPS["C18"] = dict(
     modules=["Proofs.C18"],
     theorems=["Goflow.C18.start_stop_results", "Goflow.C18.shutdown_order", "Goflow.C18.skeleton_matches",
@@ -138,6 +140,7 @@ PROPS["C18"] = dict(
     generators=[dict(name="C18", quick=4, thorough=6, subseeds=1)],
     harness=["impl"],
     count_all=True,
+    extra=[e2e.sigterm_backlog],
     watchdog_ms=60000,
     assumptions=["decoder calls return (the `finish` step is always eventually taken); socket rebinding and process exit are runtime behaviour seen only by the harness"],
 )
